@@ -63,6 +63,19 @@ type Number interface {
 
 // Hashable in tem of Go map for cache key.
 func Hashable(o Object) bool {
+	budget := maxHashableNodes
+	return hashable(o, &budget)
+}
+
+// maxHashableNodes bounds the size (as a tree) of a value used as cache key: hashing and comparing it takes that
+// many steps, and a small array holding itself a few times at every level is exponentially large as a tree.
+const maxHashableNodes = 1000
+
+func hashable(o Object, budget *int) bool {
+	*budget--
+	if *budget < 0 {
+		return false
+	}
 	switch o.Type() { //nolint:exhaustive // We have all the types that are hashable + default for the others.
 	// register because it's a pointer though dubious whether it's hashable for cache key.
 	case FLOAT:
@@ -74,7 +87,7 @@ func Hashable(o Object) bool {
 	case ARRAY:
 		if sa, ok := o.(SmallArray); ok {
 			for _, el := range sa.smallArr[:sa.len] {
-				if !Hashable(el) {
+				if !hashable(el, budget) {
 					return false
 				}
 			}
@@ -83,7 +96,7 @@ func Hashable(o Object) bool {
 	case MAP:
 		if sm, ok := o.(SmallMap); ok {
 			for _, kv := range sm.smallKV[:sm.len] {
-				if !Hashable(kv.Key) || !Hashable(kv.Value) {
+				if !hashable(kv.Key, budget) || !hashable(kv.Value, budget) {
 					return false
 				}
 			}
